@@ -24,6 +24,10 @@
 (*                 input's (bags; resource / scope attribute sets as sets, *)
 (*                 the producer may merge equal ones), under the           *)
 (*                 normalisations of RoundTrip.tla applied to both sides   *)
+(*   Owned         every main row, with the attribute sets its id, its     *)
+(*                 resource id and its scope id select, is an input item   *)
+(*                 with its own, its resource's and its scope's attributes *)
+(*                 (as bags): ownership, not only content, on the wire     *)
 (* Input: one NDJSON record per small emitted batch (harness/otap/         *)
 (* wiretab.go): the input nodes and, per payload, the raw columns.         *)
 (* A deviation is DRIFT of the producer from this specification, never a   *)
@@ -169,10 +173,32 @@ Conserved(e) ==
                 \cup If(BagSum(<<PidCountBag(e, <<"NUMBER_DP_EXEMPLARS">>), PidCountBag(e, <<"HISTOGRAM_DP_EXEMPLARS">>), PidCountBag(e, <<"EXP_HISTOGRAM_DP_EXEMPLARS">>)>>)
                         # CountsOfNodes(dps, "exemplars"), D(e, "Conserved", "DP_EXEMPLARS")))
 
+\* ownership at the wire level: every main row with the attribute sets its id, its resource id and its scope id select,
+\* as a bag, against every input item with its own, its resource's and its scope's attribute set
+Lookup(f, x) == IF x # NULL /\ x \in DOMAIN f THEN f[x] ELSE {}
+Owned(e) ==
+  LET mpt == MainPt(e)
+      rows == TabOf(e, mpt)
+      ids == Ids(mpt, rows)
+      rids == Delta(16, Col(rows, "rid"))
+      sids == Delta(16, Col(rows, "sid"))
+      own == CASE e.sig = "traces" -> (IF Has(e, "SPAN_ATTRS") THEN WireAttrSets("SPAN_ATTRS", TabOf(e, "SPAN_ATTRS")) ELSE [x \in {} |-> {}])
+               [] e.sig = "logs" -> (IF Has(e, "LOG_ATTRS") THEN WireAttrSets("LOG_ATTRS", TabOf(e, "LOG_ATTRS")) ELSE [x \in {} |-> {}])
+               [] OTHER -> [x \in {} |-> {}]
+      ra == IF Has(e, "RESOURCE_ATTRS") THEN WireAttrSets("RESOURCE_ATTRS", TabOf(e, "RESOURCE_ATTRS")) ELSE [x \in {} |-> {}]
+      sa == IF Has(e, "SCOPE_ATTRS") THEN WireAttrSets("SCOPE_ATTRS", TabOf(e, "SCOPE_ATTRS")) ELSE [x \in {} |-> {}]
+      wire == BagOf([k \in DOMAIN rows |-> <<Lookup(own, ids[k]), Lookup(ra, rids[k]), Lookup(sa, sids[k])>>])
+      items == Items(e)
+      inp == BagOf([k \in DOMAIN items |->
+                     <<IF e.sig = "metrics" THEN {} ELSE NormAttrs(items[k].a),
+                       NormAttrs(Kid(items[k], "res")[1].a), NormAttrs(Kid(items[k], "scope")[1].a)>>])
+  IN If(Has(e, mpt) /\ wire # inp, D(e, "Owned", mpt))
+
 Judge(e) ==
   (UNION {TableChecks(e, Tabs(e)[k]) : k \in DOMAIN Tabs(e)})
   \cup If(~Has(e, MainPt(e)), D(e, "NoMainRecord", MainPt(e)))
   \cup Conserved(e)
+  \cup Owned(e)
 
 Init == i = 1 /\ drift = {} /\ nrows = 0
 Next ==
